@@ -1,5 +1,6 @@
 import LassoModel.Keys
 import LassoModel.Extracted
+import LassoProofs.Lemmas.Config
 /-
   C11 — built-in key types convert to and from indices without loss or aliasing.
 
@@ -154,5 +155,12 @@ def badLe : KeySpec :=
     load := (.sub (.cast .var .usize) (.lit 1)), defaultIdx := (some 0), derivesOrdEq := true,
     reprTransparent := true, serdeRaw := true }
 example : tryFromUsize badLe 255 = .fault .unreachable := by decide
+
+/-- The code this file's theorems are about is the same under every feature configuration: the regenerated
+census of conditional compilation contains import blocks, whole serde impls, optional-dependency impls and
+module declarations only, and no gate inside any function body (`Lemmas/Config.lean`). -/
+theorem same_code_under_every_feature_configuration :
+    (Extracted.cfgGates.all fun g => g.kind != .other) = true ∧ Extracted.bodyGates.isEmpty = true :=
+  Lasso.one_code_base_for_all_configurations
 
 end Lasso.C11
